@@ -1578,9 +1578,15 @@ func runCLIServer(c Case, cl *CLICase, dir string, o *hx.Outcome) {
 		default:
 		}
 		if !seen {
-			inconclusive(o, "reload-not-observed")
 			hist = append(hist, fmt.Sprintf("reload not observed after %d polls", polls))
 			ok = false
+			stop()
+			if msg := p.out.String(); strings.Contains(msg, "failed to reload configuration") {
+				// "If the configuration in the file is found to be invalid, an error is printed": this one is valid
+				o.Fail("C11:cli:server:reload-refused", "the server refused a valid store file on SIGHUP: %q — %s", clip(msg), where())
+			} else {
+				inconclusive(o, "reload-not-observed")
+			}
 		} else {
 			o.Class("cli:server:reload-observed")
 			evs["swap"] = true
